@@ -8,7 +8,8 @@ from . import common as C
 ALPHABET = [0x00, 0x7F, 0x80, 0xBF, 0xC0, 0xC1, 0xC2, 0xDF, 0xE0, 0xED, 0xEF, 0xF0, 0xF4, 0xF5, 0xFF, 0x9F, 0xA0, 0x8F, 0x90]
 THEOREMS = ["literal_roundtrip", "literal_ascii", "runes_spec", "runesToString_spec", "index_spec", "index_in_range",
             "substring_spec", "substringOpen_spec", "bytesToString_chunk_spec", "bytesToString_spec", "stringToBytes_spec", "decode_spec", "decode_width", "range_spec", "encode_spec", "spec_decode_encode", "decode_encode",
-            "encode_nonscalar", "core_specO"]
+            "encode_nonscalar", "core_specO", "intToString_spec", "flatten64_words", "flatten64_margin",
+            "old_conversion_counterexample"]
 RUNE_BOUNDS = [0, 0x7F, 0x80, 0x7FF, 0x800, 0xD7FF, 0xD800, 0xDFFF, 0xE000, 0xFFFD, 0xFFFF, 0x10000, 0x10FFFF, 0x110000,
                0x7FFFFFFF, -1, -0x80000000]
 
@@ -271,6 +272,145 @@ def program_tie(chk, tier):
     chk.extra["programs"] = len(jobs)
 
 
+# --- string(x) for integer operands of every kind ---------------------------------------------------------------
+INT_KINDS = {  # Go type -> (underlying kind, lo, hi)
+    "int8": ("int8", -2 ** 7, 2 ** 7 - 1), "int16": ("int16", -2 ** 15, 2 ** 15 - 1), "int32": ("int32", -2 ** 31, 2 ** 31 - 1),
+    "int64": ("int64", -2 ** 63, 2 ** 63 - 1), "uint8": ("uint8", 0, 2 ** 8 - 1), "uint16": ("uint16", 0, 2 ** 16 - 1),
+    "uint32": ("uint32", 0, 2 ** 32 - 1), "uint64": ("uint64", 0, 2 ** 64 - 1), "int": ("int", -2 ** 31, 2 ** 31 - 1),
+    "uint": ("uint", 0, 2 ** 32 - 1), "uintptr": ("uintptr", 0, 2 ** 32 - 1), "byte": ("uint8", 0, 255),
+    "rune": ("int32", -2 ** 31, 2 ** 31 - 1), "nU8": ("uint8", 0, 255), "nI64": ("int64", -2 ** 63, 2 ** 63 - 1),
+    "nU": ("uint", 0, 2 ** 32 - 1), "nR": ("int32", -2 ** 31, 2 ** 31 - 1), "nU64": ("uint64", 0, 2 ** 64 - 1),
+    "nI16": ("int16", -2 ** 15, 2 ** 15 - 1),
+}
+CONV_BOUNDS = [0, 1, 0x41, 0x7F, 0x80, 0xA9, 0xE9, 0xFF, 0x100, 0x7FF, 0x800, 0x20AC, 0xD7FF, 0xD800, 0xDBFF, 0xDC00, 0xDFFF, 0xE000,
+               0xFFFD, 0xFFFF, 0x10000, 0x1F600, 0x10FFFF, 0x110000, 2 ** 31 - 1, 2 ** 31, 2 ** 31 + 0x41, 2 ** 32 - 1, 2 ** 32,
+               2 ** 32 + 0x41, 2 ** 32 + 0xE9, 2 ** 33 + 0x20AC, 2 ** 40, 2 ** 53, 2 ** 53 + 1, 2 ** 63 - 1, 2 ** 63, 2 ** 63 + 0x41,
+               2 ** 64 - 1, 2 ** 64 - 2 ** 32 + 0x41, -1, -0x41, -0x80, -2 ** 15, -2 ** 31, -2 ** 32, -2 ** 32 + 0x41, -2 ** 32 - 0x41,
+               -2 ** 53 - 1, -2 ** 63, -2 ** 63 + 0x41]
+CONV_HEAD = r"""package main
+
+type nU8 uint8
+type nI64 int64
+type nU uint
+type nR rune
+type nU64 uint64
+type nI16 int16
+
+type integer interface {
+	~int8 | ~int16 | ~int32 | ~int64 | ~uint8 | ~uint16 | ~uint32 | ~uint64 | ~int | ~uint | ~uintptr
+}
+
+func gconv[T integer](x T) string { return string(x) }
+
+func d(tag string, i int, s string) {
+	b := [4]int{-1, -1, -1, -1}
+	for j := 0; j < len(s) && j < 4; j++ {
+		b[j] = int(s[j])
+	}
+	println(tag, i, len(s), b[0], b[1], b[2], b[3])
+}
+"""
+
+
+def _balanced(e):
+    d = 0
+    for ch in e:
+        d += ch == "("
+        d -= ch == ")"
+        if d < 0:
+            return False
+    return d == 0
+
+
+def conv_tie(chk, tier):
+    """string(x) for x of every integer type: compiled programs vs native Go (specification) and vs the Lean model
+    (`utf8 conv <kind> <value>`), plus the emitted expression per kind (`utf8 convshape <kind>`)."""
+    from . import progs
+    import re
+    vals = {}
+    for t, (k, lo, hi) in INT_KINDS.items():
+        vs = [v for v in CONV_BOUNDS if lo <= v <= hi]
+        for _ in range(24 if tier == "thorough" else 8):
+            c = chk.rng.choice(["rune", "any", "low"])
+            if c == "rune":
+                v = chk.rng.randrange(0, 0x110000)
+            elif c == "low":          # values whose low 32 bits look like a valid rune
+                v = chk.rng.randrange(0, 0x110000) + chk.rng.choice([1, -1]) * (chk.rng.randrange(1, 2 ** 31) << 32)
+            else:
+                v = chk.rng.randrange(lo, hi + 1)
+            if lo <= v <= hi:
+                vs.append(v)
+        vals[t] = vs
+    src = [CONV_HEAD]
+    for t, vs in vals.items():
+        src.append("func c_%s(x %s) string { return string(x) }\n" % (t, t))
+        src.append("var v_%s = []%s{%s}\n" % (t, t, ", ".join(str(v) for v in vs)))
+    src.append("func main() {\n")
+    for t in vals:
+        src.append("\tfor i, x := range v_%s {\n\t\td(\"%s\", i, string(x))\n\t\td(\"f:%s\", i, c_%s(x))\n\t\td(\"g:%s\", i, gconv(x))\n\t}\n" % (t, t, t, t, t))
+    src.append("}\n")
+    src = "".join(src)
+    job = {"id": "conv", "files": {"main.go": src}, "variants": ["plain", "minify"], "native": True, "timeout": 60, "keep_js": True}
+    r = progs.run_jobs([job])[0]
+    nat = progs.observe_native(r["runs"]["native"])
+    if nat[1] != "exit0":
+        raise RuntimeError("conversion program does not run natively: %s" % (nat,))
+    # expected lines from the model
+    ops, tags = [], []
+    for t, vs in vals.items():
+        for form in ("", "f:", "g:"):
+            for i, v in enumerate(vs):
+                ops.append("utf8 conv %s %d" % (INT_KINDS[t][0], v))
+                tags.append("%s%s %d" % (form, t, i))
+    ops_order = {}
+    # the program prints per type: for each i the three forms; rebuild that order
+    lines_model = {}
+    model = C.run_driver("C14", ops)
+    spec = C.run_driver("C14", [o.replace(" conv ", " sconv ") for o in ops])
+    for tg, o, m, sp in zip(tags, ops, model, spec):
+        lines_model[tg] = (o, m, sp)
+
+    def as_hex(line):
+        p = line.split()
+        n = int(p[2])
+        bs = [int(x) for x in p[3:3 + min(n, 4)]]
+        return " ".join(p[:2]), (C.hexs(bs) if n <= 4 else "len%d" % n)
+    nat_map = dict(as_hex(l) for l in nat[0])
+    for v in job["variants"]:
+        obs = progs.observe_js(r["runs"][v])
+        if obs[1] != "exit0":
+            chk.add_mismatch("conversion:" + v, json.dumps({"id": "conv", "ending": obs[1], "source": src[:2000]}),
+                             impl=json.dumps(obs[1]), spec="exit0")
+            continue
+        js_map = dict(as_hex(l) for l in obs[0])
+        t_ops, t_impl, t_model, t_spec = [], [], [], []
+        for tg, (o, m, sp) in lines_model.items():
+            t_ops.append("%s  # %s, %s" % (o, tg, v))
+            t_impl.append(js_map.get(tg, "missing"))
+            t_model.append(m)
+            # two specifications must agree: native Go and the Lean spec of the value's encoding
+            if nat_map.get(tg) != sp:
+                raise RuntimeError("native Go and GV.Spec.Utf8.encode disagree on %s: %s vs %s" % (o, nat_map.get(tg), sp))
+            t_spec.append(sp)
+        chk.compare("int-to-string:" + v, t_ops, t_impl, t_model, spec=t_spec,
+                    kind=lambda o, a: "conv:%s:len=%d" % (o.split()[2], len(a) // 2))
+    # the emitted expression per kind
+    js = r["runs"]["plain"].get("js", "")
+    s_ops, s_impl = [], []
+    for t in vals:
+        m = re.search(r"\bc_%s = function[^(]*\(x\) \{(?:\s*var [^;]*;)*\s*return ([^;]*);" % re.escape(t), js)
+        s_ops.append("utf8 convshape %s" % INT_KINDS[t][0])
+        if not m:
+            raise RuntimeError("conversion function c_%s not found in the compiled output (harness pattern out of date)" % t)
+        e = m.group(1).strip()
+        while e.startswith("(") and e.endswith(")") and _balanced(e[1:-1]):
+            e = e[1:-1]
+        s_impl.append(e)
+    chk.compare("int-to-string-shape", ["%s  # %s" % (o, t) for o, t in zip(s_ops, vals)], s_impl, C.run_driver("C14", s_ops),
+                kind=lambda o, a: "shape")
+    chk.extra["conversion_cases"] = len(ops)
+
+
 def kind(op, ans):
     p = op.split()
     k = p[1]
@@ -337,6 +477,7 @@ def run(tier, seed):
     js_ops = ["utf8 jslit %s" % l for l in lit_impl]
     chk.compare("literal-value", js_ops, C.run_node(js_ops), C.run_driver("C14", js_ops), spec=hexs_, kind=lambda o, a: "jslit")
     program_tie(chk, tier)
+    conv_tie(chk, tier)
     chk.extra["exhaustive"] = False
     chk.extra["exhaustive_subspace"] = "all byte strings of length <= %d over %d boundary bytes x all positions" % (
         4 if tier == "thorough" else 3, len(ALPHABET))
@@ -345,7 +486,12 @@ def run(tier, seed):
 
 def replay(path):
     rep = json.load(open(path))
-    ops = [m["op"] for m in rep.get("failing_inputs", [])]
+    ops = [m["op"] for m in rep.get("failing_inputs", []) if m["op"].startswith("utf8 ") and "#" not in m["op"]]
+    for m in rep.get("failing_inputs", []):
+        if "#" in m["op"] or not m["op"].startswith("utf8 "):
+            print("compiled-program input (re-run the check to reproduce):", m["op"][:300], "impl:", m.get("impl"), "spec:", m.get("spec"))
+    if not ops and rep.get("failing_inputs"):
+        return 1
     if not ops:
         print("no failing input recorded; broken obligations:", rep.get("broken_obligations"))
         return 1
